@@ -13,7 +13,7 @@ pub const SWARM_PER_BATCH: u64 = 250;
 
 pub fn plan(tier: &str, seed: u64) -> Vec<Batch> {
     let (swarm_batches, flip) = match tier {
-        "thorough" => (120, 40),
+        "thorough" => (300, 60),
         "dev" => (1, 1),
         _ => (10, 4),
     };
